@@ -281,7 +281,7 @@ def run(ctx: core.Run):
     sizes = {rel(f): f.stat().st_size for f in chosen}
     # signature / short-length streams: the smallest fixtures of BOTH versions (the 8-byte length fields, section
     # lengths and big keys exist in a PSB only), whatever the random choice above took
-    n_each = 6 if quick else 40
+    n_each = 6 if quick else 20
     by_ext = {".psd": [], ".psb": []}
     for f in allfx:
         if f.stat().st_size <= (60_000 if quick else 300_000):
